@@ -189,3 +189,43 @@ def search_grid_spans_the_bounds_and_contains_the_conditioning_point(h, d):
         want[k] = x
         h.eq(f"variable {k}: the function searched is the conditional through the conditioning point", val, F(want))
     h.eq("caller's conditioning point unchanged", theta, point0)
+
+
+@unit("C20", quick=[dict(itr=3)], thorough=[dict(itr=5)], max_paths=6000, cost=4)
+def threshold_search_ignores_an_additive_constant_of_the_log_density(h, itr):
+    """the bisection that locates where the conditional falls below the threshold (the only search evaluate_conditional
+    uses), run for up to `itr` iterations on an arbitrary function: a log-posterior is defined up to an additive constant,
+    so shifting the function values, the bracket values and the target by the same constant c must not change the point
+    returned, nor the points at which the function is evaluated; the returned point lies inside the bracket and -- when
+    the search stopped early -- within the tolerance of the target"""
+    cd = _mod(h)
+    h.covers(cd.binary_search)
+    g = h.ufunc("g", 1)
+    c = h.real("c")
+    x1 = h.real("x1")
+    x2 = x1 + h.real("dx", pos=True)
+    y1, y2 = g(np.array([x1])), g(np.array([x2]))
+    target = h.real("target")
+    if h.sym:
+        h.ctx.side.append(z3.Or(z3.And(R(y1) < R(target), R(target) < R(y2)), z3.And(R(y2) < R(target), R(target) < R(y1))))
+    elif not ((y1 < target < y2) or (y2 < target < y1)):
+        from symnp.harness import ReplayMismatch
+        raise ReplayMismatch("bracket does not straddle the target")
+    dt = object if h.sym else float
+    seen_a, seen_b = [], []
+
+    def fa(x):
+        seen_a.append(x)
+        return g(np.array([x], dtype=dt))
+
+    def fb(x):
+        seen_b.append(x)
+        return g(np.array([x], dtype=dt)) + c
+    ra = cd.binary_search(fa, target, np.array([x1, x2], dtype=dt), np.array([y1, y2], dtype=dt), max_itr=itr)
+    rb = cd.binary_search(fb, target + c, np.array([x1, x2], dtype=dt), np.array([y1 + c, y2 + c], dtype=dt), max_itr=itr)
+    h.same("same number of evaluations with and without the constant", len(seen_b), len(seen_a))
+    h.eq("same point returned with and without the constant", rb, ra)
+    h.ge("returned point inside the bracket (lower)", ra, x1)
+    h.le("returned point inside the bracket (upper)", ra, x2)
+    if len(seen_a) < itr:
+        h.le("stopped early only within the default tolerance 0.05 of the target", abs(g(np.array([ra], dtype=dt)) - target), 0.05)
